@@ -49,10 +49,31 @@ def main():
     if args.setup:
         sys.exit(setup())
     if args.update_golden:
+        # Regenerate from /repo itself (never from a scratch copy) and copy only the files that
+        # the named property's translator writes (all properties when no id is given).
+        if os.environ.get("VERIF_REPO") not in (None, "", "/repo"):
+            print("refusing to update goldens from a scratch repository")
+            sys.exit(2)
         import shutil
         (common.COQ / "gen.golden").mkdir(exist_ok=True)
-        for p in (common.COQ / "gen").glob("*.v"):
-            shutil.copy(p, common.COQ / "gen.golden" / p.name)
+        pids = [args.pid.upper()] if args.pid else all_ids()
+        for pid in pids:
+            mod = importlib.import_module(f"harness.p_{pid.lower()}")
+            ctx = common.Ctx(pid, "quick", 0)
+            ctx.written = []
+            orig = ctx.write_gen
+            def rec(name, text, orig=orig, ctx=ctx):
+                ctx.written.append(name)
+                orig(name, text)
+            ctx.write_gen = rec
+            try:
+                mod.generate(ctx)
+            except Exception as e:  # noqa: BLE001
+                print(f"update-golden: generate {pid} failed: {e}")
+                continue
+            for name in ctx.written:
+                shutil.copy(common.COQ / "gen" / name, common.COQ / "gen.golden" / name)
+            print(f"update-golden {pid}: {ctx.written}")
         return
     seed = int(os.environ.get("VERIF_SEED", "0"))
     mod = importlib.import_module(f"harness.p_{args.pid.lower()}")
